@@ -81,7 +81,7 @@ def explore(contract: Contract, index: Index, registry=None, max_paths=MAX_PATHS
             it.opaque_calls = set(getattr(contract, "opaque_calls", ()))
             it.loop_specs = _loop_specs(contract, fi, s, args)
             outcome, value, exc, reason, line = "return", None, None, "", None
-            self_val = args.pop("__self__", None) if isinstance(args, dict) else None
+            self_val = args.get("__self__") if isinstance(args, dict) else None
             try:
                 value = it.call_def(fi, [], {k: v for k, v in args.items() if not k.startswith('__') and k != 'cls'}, self_val=self_val, cls_val=args.get("cls"), top=True)
             except PyRaise as e:
